@@ -340,11 +340,32 @@ package webdav
 //@   ensures F1: err == nil ==> resp != nil && fresh(resp) && len(resp.Hrefs) == 1 && resp.Hrefs[0].Path == fi.Path && resp.Status == nil
 //@   ensures F2: err == nil <==> propfind.PropName != nil || propfind.AllProp != nil || propfind.Prop != nil
 //@   ensures F3: err != nil ==> resp == nil && httpCode(err) == 400 && !hostPath(err)
+//@   -- C05: the typed properties of a file are handed to the serialiser with the FileSystem's values (prop form: at the position
+//@   -- of the requested element, under 200); a collection, or an unset value, is answered 404 for that property
+//@   ensures V1a: err == nil && propFormOnly(propfind) && old(allNamed(propfind)) && !fi.IsDir ==> (forall j int :: 0 <= j && j < old(len(propfind.Prop.Raw)) && old(rawName(propfind.Prop.Raw[j])) == internal.GetContentLengthName
+//@   |   ==> loggedCode(old(epCalls) + j) == 200 && dynPtr(loggedVal(old(epCalls) + j), "*internal.GetContentLength") != nil && (let v : dynPtr(loggedVal(old(epCalls) + j), "*internal.GetContentLength") in v.Length == fi.Size))
+//@   ensures V1b: err == nil && propFormOnly(propfind) && old(allNamed(propfind)) && (fi.IsDir) ==> (forall j int :: 0 <= j && j < len(propfind.Prop.Raw) && rawName(propfind.Prop.Raw[j]) == internal.GetContentLengthName
+//@   |   ==> loggedCode(old(epCalls) + j) == 404)
+//@   ensures V2a: err == nil && propFormOnly(propfind) && old(allNamed(propfind)) && !fi.IsDir && fi.ETag != "" ==> (forall j int :: 0 <= j && j < old(len(propfind.Prop.Raw)) && old(rawName(propfind.Prop.Raw[j])) == internal.GetETagName
+//@   |   ==> loggedCode(old(epCalls) + j) == 200 && dynPtr(loggedVal(old(epCalls) + j), "*internal.GetETag") != nil && (let v : dynPtr(loggedVal(old(epCalls) + j), "*internal.GetETag") in string(v.ETag) == fi.ETag))
+//@   ensures V2b: err == nil && propFormOnly(propfind) && old(allNamed(propfind)) && (fi.IsDir || fi.ETag == "") ==> (forall j int :: 0 <= j && j < len(propfind.Prop.Raw) && rawName(propfind.Prop.Raw[j]) == internal.GetETagName
+//@   |   ==> loggedCode(old(epCalls) + j) == 404)
+//@   ensures V3a: err == nil && propFormOnly(propfind) && old(allNamed(propfind)) && !fi.IsDir && !isZeroTime(fi.ModTime) ==> (forall j int :: 0 <= j && j < old(len(propfind.Prop.Raw)) && old(rawName(propfind.Prop.Raw[j])) == internal.GetLastModifiedName
+//@   |   ==> loggedCode(old(epCalls) + j) == 200 && dynPtr(loggedVal(old(epCalls) + j), "*internal.GetLastModified") != nil && (let v : dynPtr(loggedVal(old(epCalls) + j), "*internal.GetLastModified") in ns(v.LastModified) == ns(fi.ModTime)))
+//@   ensures V3b: err == nil && propFormOnly(propfind) && old(allNamed(propfind)) && (fi.IsDir || isZeroTime(fi.ModTime)) ==> (forall j int :: 0 <= j && j < len(propfind.Prop.Raw) && rawName(propfind.Prop.Raw[j]) == internal.GetLastModifiedName
+//@   |   ==> loggedCode(old(epCalls) + j) == 404)
+//@   ensures V4a: err == nil && propFormOnly(propfind) && old(allNamed(propfind)) && !fi.IsDir && fi.MIMEType != "" ==> (forall j int :: 0 <= j && j < old(len(propfind.Prop.Raw)) && old(rawName(propfind.Prop.Raw[j])) == internal.GetContentTypeName
+//@   |   ==> loggedCode(old(epCalls) + j) == 200 && dynPtr(loggedVal(old(epCalls) + j), "*internal.GetContentType") != nil && (let v : dynPtr(loggedVal(old(epCalls) + j), "*internal.GetContentType") in v.Type == fi.MIMEType))
+//@   ensures V4b: err == nil && propFormOnly(propfind) && old(allNamed(propfind)) && (fi.IsDir || fi.MIMEType == "") ==> (forall j int :: 0 <= j && j < len(propfind.Prop.Raw) && rawName(propfind.Prop.Raw[j]) == internal.GetContentTypeName
+//@   |   ==> loggedCode(old(epCalls) + j) == 404)
 //@ spec formOK(pf *internal.PropFind) bool = pf.PropName != nil || pf.AllProp != nil || pf.Prop != nil
 //@ func webdav.(*backend).PropFind(b, r, propfind, depth) (ms, err)
 //@   requires R1: servedB(b) && reqOK(r) && propfind != nil
 //@   allocates
 //@   assigns ghost:rdC, ghost:rdIdx
+//@   ghostset pfReached : true
+//@   ghostset pfAllProp : propfind.AllProp != nil
+//@   ensures P9: pfReached && pfAllProp == old(propfind.AllProp != nil)
 //@   ensures Q1: err == nil <==> validName(r.URL.Path) && !absent(lnode(r.URL.Path)) && formOK(propfind)
 //@   ensures Q2: err == nil && (depth == internal.DepthZero || !isDir(lnode(r.URL.Path))) ==> ms != nil && len(ms.Responses) == 1 && len(ms.Responses[0].Hrefs) == 1 && ms.Responses[0].Hrefs[0].Path == r.URL.Path
 //@   -- Depth 1 / infinity on a collection: one response per resource in scope, each once, under a path that addresses it (C01, C03, C11)
@@ -374,8 +395,11 @@ package webdav
 //@   -- taint assumption: the client does not already know the host path
 //@   requires R2: !strHostPath(destPath(r)) && !strHostPath(hdr(r, "Destination"))
 //@   allocates
-//@   assigns ghost:tree, ghost:data, ghost:fhNode, ghost:rstatus, ghost:hv, ghost:wbody, ghost:rdC, ghost:rdIdx, ghost:servedMS, ghost:servedErr
+//@   assigns ghost:tree, ghost:data, ghost:fhNode, ghost:rstatus, ghost:hv, ghost:wbody, ghost:rdC, ghost:rdIdx, ghost:servedMS, ghost:servedErr, ghost:pfReached, ghost:pfAllProp
 //@   ensures A0: wstatus(w) != 0
+//@   -- C11: a PROPFIND without a body (and without an XML content type) means allprop: it reaches the backend's PropFind as an allprop request
+//@   ensures PF7: r.Method == "PROPFIND" && old(!pfReached && !xmlReq(r) && smt("bool", "(emptyBody $0)", r.Body) && (hdr(r, "Depth") == "" || hdr(r, "Depth") == "0" || hdr(r, "Depth") == "1" || hdr(r, "Depth") == "infinity"))
+//@   |   ==> pfReached && pfAllProp
 //@   ensures WF: wfTree()
 //@   ensures DEL1: r.Method == "DELETE" ==> wstatus(w) == (old(delCode(r.URL.Path, hdr(r, "If-Match"), hdr(r, "If-None-Match"))) == 0 ? 204 : old(delCode(r.URL.Path, hdr(r, "If-Match"), hdr(r, "If-None-Match"))))
 //@   ensures DEL2: r.Method == "DELETE" && wstatus(w) == 204 ==> (forall m $P :: kindOf(tree, m) == (anc(lnode(r.URL.Path), m) ? 0 : kindOf(old(tree), m))) && data == old(data)
@@ -442,20 +466,26 @@ package webdav
 //@ -- (specs: funcvalue:internal.PropFindFunc). Their preconditions speak about the captured variables, which hold
 //@ -- where the literal is created (precondition R1 of the creating function).
 //@ func webdav.(*backend).propFindFile$1(raw) (val, err)
+//@   ensures VN: err == nil ==> val != nil
 //@   requires C1: *fi != nil
 //@   allocates
 //@   ensures V1: mutations == old(mutations) && epCalls == old(epCalls) && epCode == old(epCode) && epVal == old(epVal)
 //@   ensures V2: err == nil
 //@ func webdav.servePrincipalPropfind$1(raw) (val, err)
+//@   ensures VN: err == nil ==> val != nil
 //@   allocates
 //@   ensures V1: mutations == old(mutations) && epCalls == old(epCalls) && epCode == old(epCode) && epVal == old(epVal)
 //@   ensures V2: err == nil
 //@ func webdav.servePrincipalPropfind$2(raw) (val, err)
+//@   ensures VN: err == nil ==> val != nil
 //@   requires C1: *options != nil
 //@   allocates
 //@   ensures V1: mutations == old(mutations) && epCalls == old(epCalls) && epCode == old(epCode) && epVal == old(epVal)
 //@   ensures V2: err == nil
 //@ func webdav.servePrincipalPropfind$3(raw) (val, err)
+//@   -- (the home sets handed to the helper are non-nil: R2 of servePrincipalPropfind)
+//@   requires C1: *hs != nil
+//@   ensures VN: err == nil ==> val != nil
 //@   allocates
 //@   ensures V1: mutations == old(mutations) && epCalls == old(epCalls) && epCode == old(epCode) && epVal == old(epVal)
 //@   ensures V2: err == nil
